@@ -13,9 +13,10 @@ THEOREMS = [
     'Sourcer.C06_call_means_its_expansion_closed_arguments',
     'Sourcer.C06_more_fuel_same_outcome',
     'Sourcer.C05_flat_locals_realise_lexical_scoping',
+    'Tie.binders_agree',
 ]
-TIE_MODULES = []
-TRANSLATORS = ()
+TIE_MODULES = ['Tie.Binders']
+TRANSLATORS = ('binders',)
 ASSUMPTIONS = c05.ASSUMPTIONS + [
     'the memo of the trampoline is transparent for template calls whose arguments are compared by Python equality (C07 proves transparency for keys '
     'with a correct equality); argument values that are == but not interchangeable (1, True, 1.0) are the recorded known finding',
